@@ -53,6 +53,28 @@ def canonicalize(text):
     alias = find_aliases(g, spec)
     for new, old in sorted(alias.items(), key=lambda x: -len(x[0])):
         text = re.sub(r"(?<![A-Za-z0-9_])" + re.escape(new) + r"(?![A-Za-z0-9_])", old, text)
+    # an `#[inline]` nonterminal the spec does not know, with one alternative and the default action, is the anonymous
+    # group it names: `PathSegment: .. = <IDENT> ".";` stands for `(<IDENT> ".")` wherever it is used
+    for n in g["parse_tree"]["nonterminals"]:
+        nm = n["name"]
+        if nm in spec or nm in alias or n.get("macro_params"):
+            continue
+        if not any(a.get("id") == "inline" for a in n.get("annotations") or []):
+            continue
+        alts = n["alternatives"]
+        if len(alts) != 1 or alts[0].get("action_kind") != "default":
+            continue
+        group = "(" + " ".join(sy.get("canonical", "") for sy in alts[0]["symbols"]) + ")"
+        jgroup = json.dumps(group)[1:-1]   # escaped as inside a JSON string
+        text = re.sub(r"(?<![A-Za-z0-9_])" + re.escape(nm) + r"(?![A-Za-z0-9_])", lambda m: jgroup, text)
+        alias[nm] = group
+    groups = set(v for k, v in alias.items() if v.startswith("("))
+    if groups:
+        g2 = json.loads(text)
+        g2["parse_tree"]["nonterminals"] = [n for n in g2["parse_tree"]["nonterminals"] if n["name"] not in groups]   # an anonymous group has no definition of its own
+        for grp in groups:
+            g2["lowered"]["nonterminal_origin"].setdefault(grp, {"kind": "expr", "text": grp})
+        text = json.dumps(g2)
     return text, alias
 
 
